@@ -32,6 +32,10 @@ package sender
 //@ ensures result0 != nil ==> result0.Type == "http" || result0.Type == "poll"
 // an http(s) address is handed on exactly as the URL reads (url.String of the parsed address, nothing redacted or rewritten)
 //@ ensures result0 != nil && result0.Type == "http" ==> result0.Data == jsonmap1("url", urlstring(v))
+// a poll address names the group by the host and the listener id by the whole rest of the path (ids may contain slashes)
+//@ ensures (result0 != nil && result0.Type == "poll") == (result1 && urlpart(v, "Scheme") == "poll")
+//@ ensures [C19 C18] result0 != nil && result0.Type == "poll" && trimprefix(urlpart(v, "Path"), "/") == "" ==> result0.Data == jsonmap1("group", urlpart(v, "Host"))
+//@ ensures [C19 C18] result0 != nil && result0.Type == "poll" && trimprefix(urlpart(v, "Path"), "/") != "" ==> result0.Data == jsonmap2("group", urlpart(v, "Host"), "id", trimprefix(urlpart(v, "Path"), "/"))
 
 // The target table: after a configured target has been processed, its name resolves to exactly that
 // target (the last definition of a name wins); the built-in default is only added when no target is
